@@ -1,4 +1,4 @@
-import XsgModel.Driver.Props
+import XsgModel.Driver.Other
 open Xsg Xsg.Proto Xsg.Driver
 
 def handleLine (line : String) : String :=
@@ -7,6 +7,26 @@ def handleLine (line : String) : String :=
     match pHBody rest with
     | some (c, []) => s!"{id} {prop} {(checkH prop c).render}"
     | some (_, extra) => s!"{id} {prop} BAD trailing-tokens {extra.length}"
+    | none => s!"{id} {prop} BAD unparsable-case"
+  | "L" :: id :: prop :: rest =>
+    match handleL rest with
+    | some v => s!"{id} {prop} {v.render}"
+    | none => s!"{id} {prop} BAD unparsable-case"
+  | "O" :: id :: prop :: rest =>
+    match handleO rest with
+    | some v => s!"{id} {prop} {v.render}"
+    | none => s!"{id} {prop} BAD unparsable-case"
+  | "PAIR" :: id :: prop :: rest =>
+    match handlePair prop rest with
+    | some v => s!"{id} {prop} {v.render}"
+    | none => s!"{id} {prop} BAD unparsable-case"
+  | "U" :: id :: prop :: rest =>
+    match handleU rest with
+    | some v => s!"{id} {prop} {v.render}"
+    | none => s!"{id} {prop} BAD unparsable-case"
+  | "V" :: id :: prop :: rest =>
+    match handleV rest with
+    | some v => s!"{id} {prop} {v.render}"
     | none => s!"{id} {prop} BAD unparsable-case"
   | [] => ""
   | kind :: id :: _ => s!"{id} ? BAD unknown-kind {kind}"
